@@ -166,7 +166,13 @@ fn go_command(p: &Pos, rng: &mut Rng, thorough: bool) -> String {
             format!("go depth {}", rng.range(1, max))
         }
         0..=3 => format!("go movetime {}", rng.pick(&[0u64, 1, 2, 5, 20])),
-        4..=6 => format!("go movetime {}", rng.pick(&[0u64, 0, 1, 2, 5, 20, 50])),
+        4..=5 => format!("go movetime {}", rng.pick(&[0u64, 0, 1, 2, 5, 20, 50])),
+        // further standard go tokens next to the move time (a node limit far beyond reach, moves to go)
+        6 => match rng.below(3) {
+            0 => format!("go nodes 4000000000 movetime {}", rng.pick(&[0u64, 1, 5, 20, 50])),
+            1 => format!("go movetime {} movestogo 30", rng.pick(&[0u64, 1, 5, 20, 50])),
+            _ => format!("go movestogo 12 movetime {} nodes 2500000000", rng.pick(&[0u64, 1, 5, 20, 50])),
+        },
         _ => clocks(rng),
     }
 }
